@@ -21,7 +21,8 @@ META = dict(
               "dumps), C13 (dump_many/load_many), C19 (write_input), on every explored path - leaves that state unchanged; "
               "histories A;B;A for pairs of the pool: the two runs of A write token-identical files; histories A;B;A "
               "of loading calls for 10 formats: A = a fixture cut at any of its first 40 line boundaries (mostly failing "
-              "calls), B = the complete fixture of the same / of another format: same outcome kind, same message, same objects",
+              "calls), B = the complete fixture of the same / of another format: same outcome kind, same message, same objects; a "
+              "lazily consumed load_many (mol2, xyz, sdf, pdb, gro; 3 frames) with complete loads of another file between its frames",
         thorough="all ordered pairs of the pool for A;B;A"),
     outside=["thread interleavings (2..16 threads): no engine here models CPython thread scheduling; "
              "warnings.catch_warnings used by the API is documented as not thread-safe",
@@ -219,6 +220,48 @@ def h_aba(ctx, a=None, b=None):
     ctx.oblige("same-files-written", set(t1) <= set(t2) or not t1, cls=f"{a[1]}|{b[1]}")
 
 
+def h_interleaved(ctx, fmt="mol2", nframes=3, other="xyz"):
+    """A lazily consumed load_many with other complete loads between its frames (one thread): every frame equals the frame
+    of an uninterrupted run, and the loads in between equal their stand-alone results."""
+    import iodata.api as api
+    from harness import c13, rt
+    from iodata.utils import LoadError
+    mods = rt._fmt_modules({"gro": "gromacs"}.get(fmt, fmt)) + rt._fmt_modules({"gro": "gromacs"}.get(other, other))
+    ext = {"gro": "m.gro", "xyz": "m.xyz", "sdf": "m.sdf", "mol2": "m.mol2", "pdb": "m.pdb"}
+    from symx.stubs import stubbed
+    with stubbed(*mods):
+        texts = [c13._layout_frame(ctx, fmt, k, f"frame number {k}") for k in range(nframes)]
+        path = ctx.tmp_path(ext[fmt])
+        ctx.write_text(path, "".join(texts))
+        otext = c13._layout_frame(_Quiet(ctx, {}, prefix="o_"), other, 1, "the other file")
+        opath = ctx.tmp_path("other." + ext[other].split(".", 1)[1])
+        ctx.write_text(opath, otext)
+        with warnings.catch_warnings(record=True):
+            warnings.simplefilter("always")
+            try:
+                ref = list(api.load_many(path))
+                oref = api.load_one(opath)
+            except LoadError:
+                return           # not loadable on its own: outside this obligation
+            got, others, err = [], [], None
+            try:
+                it = api.load_many(path)
+                for d in it:
+                    got.append(d)
+                    others.append(api.load_one(opath))
+            except LoadError as e:
+                err = e
+    cls = f"{fmt}|{other}"
+    ctx.oblige("interleaved-iteration-completes", err is None and len(got) == len(ref), cls=cls,
+               detail=f"{len(got)} of {len(ref)} frames; {err}")
+    for k, (a, b) in enumerate(zip(got, ref)):
+        for where, f in rt._value_equal(ctx, rt.snapshot(ctx, a), rt.snapshot(ctx, b), "frame"):
+            ctx.oblige("frame-equals-uninterrupted-run", f, cls=f"{cls},frame={k}:{where[:40]}")
+    for o in others:
+        for where, f in rt._value_equal(ctx, rt.snapshot(ctx, o), rt.snapshot(ctx, oref), "other"):
+            ctx.oblige("load-between-frames-equals-stand-alone-load", f, cls=f"{cls}:{where[:40]}")
+
+
 POOL = []
 
 
@@ -277,6 +320,10 @@ def jobs(tier):
         for b, tag in ((same, "same-format"), (other, "other-format")):
             out.append(job("C16", f"A;B;A-load[{fmt}|{tag}]", M, "h_aba", dict(a=list(a), b=list(b)), budget_s=300, max_validate=2,
                            max_paths=120))
+    # a lazily consumed trajectory with other loads between its frames
+    for fmt, other in (("mol2", "xyz"), ("xyz", "mol2"), ("sdf", "pdb"), ("pdb", "sdf"), ("gro", "xyz"), ("mol2", "mol2"), ("xyz", "xyz")):
+        out.append(job("C16", f"interleaved[{fmt}|{other}]", M, "h_interleaved", dict(fmt=fmt, nframes=3, other=other), budget_s=300,
+                       max_validate=2, max_paths=50))
     # A;B;A: writers (A) against every other call (B)
     writers = [x for x in pool if x[1] in ("h_roundtrip", "h_convert", "h_write_input")]
     pairs = []
